@@ -229,6 +229,7 @@ pub fn run_caught<P: Prop>(scn: &P::Scn, st: &mut RunStats) -> RunOutcome {
     if !P::logging_allowed() {
         crate::logsim::set(false);
     }
+    crate::sut::set_db_variant(0);
     quiet_panics(true);
     let _ = take_last_panic();
     let r = catch_unwind(AssertUnwindSafe(|| P::run(scn, st)));
